@@ -394,7 +394,9 @@ def resize(catalog, ratio=None, psfhelper=None):
     src_mask = np.ones(len(catalog), dtype=bool)
 
     # check to see if the input catalog contains psf information
-    has_psf = getattr(catalog[0], "psf_a", None) is not None
+    # (sources built from a table without psf columns have psf_a = nan)
+    psf_a = getattr(catalog[0], "psf_a", None)
+    has_psf = psf_a is not None and np.isfinite(psf_a)
 
     # If ratio is provided we just the psf by this amount
     if ratio is not None:
